@@ -269,17 +269,71 @@ Arith(op, a, b) ==
        [] OTHER -> Fail(Inexact)
 RECURSIVE IPow(_, _)
 IPow(b, n) == IF n = 0 THEN 1 ELSE b * IPow(b, n - 1)
+\* the scalars of the modelled alphabet in code point order (lib/render.py SCALAR)
+CodeOrder == <<"sp", "cm", "da", "0", "1", "2", "3", "4", "5", "6", "7", "8", "9", "A", "B", "C", "D", "S",
+               "a", "b", "c", "d", "e", "f", "l", "r", "s", "t", "u", "E2", "f2", "e2", "u3", "v3", "t4", "s4">>
+Rank(c) == CHOOSE i \in 1..Len(CodeOrder) : CodeOrder[i] = c
+RECURSIVE StrLt(_, _)
+StrLt(x, y) == IF y = <<>> THEN FALSE ELSE IF x = <<>> THEN TRUE
+               ELSE IF x[1] = y[1] THEN StrLt(Tail(x), Tail(y)) ELSE Rank(x[1]) < Rank(y[1])
 Compare(op, a, b) ==
   IF IsNum(a) /\ IsNum(b) THEN
      CASE op = "==" -> NumEq(a, b) [] op = "!=" -> ~NumEq(a, b)
        [] op = "<" -> NumLt(a, b) [] op = "<=" -> NumLt(a, b) \/ NumEq(a, b)
        [] op = ">" -> NumLt(b, a) [] op = ">=" -> NumLt(b, a) \/ NumEq(a, b)
   ELSE IF a.t = "bool" THEN (IF op = "==" THEN a.bv = b.bv ELSE a.bv # b.bv)
-  ELSE \* strings: by Unicode scalar sequence; only equality is modelled exactly (ordering needs code points)
-       (IF op = "==" THEN a.sv = b.sv ELSE a.sv # b.sv)
+  ELSE \* strings: lexicographic by Unicode code point (Python; Rust compares the UTF-8 bytes, which is the same order)
+       CASE op = "==" -> a.sv = b.sv [] op = "!=" -> a.sv # b.sv
+         [] op = "<" -> StrLt(a.sv, b.sv) [] op = "<=" -> StrLt(a.sv, b.sv) \/ a.sv = b.sv
+         [] op = ">" -> StrLt(b.sv, a.sv) [] op = ">=" -> StrLt(b.sv, a.sv) \/ a.sv = b.sv
 \* substring test on scalar sequences
 IsSubSeq(n, h) == \E i \in 0..(Len(h) - Len(n)) : SubSeq(h, i + 1, i + Len(n)) = n
 
+\* ---- strings as sequences of scalar ids: the methods of language/reference/strings.md
+UpperOf(c) == CASE c = "a" -> <<"A">> [] c = "b" -> <<"B">> [] c = "c" -> <<"C">> [] c = "d" -> <<"D">> [] c = "e2" -> <<"E2">>
+                [] c = "f2" -> <<"S", "S">> [] c = "s" -> <<"S">> [] OTHER -> <<c>>
+LowerOf(c) == CASE c = "A" -> "a" [] c = "B" -> "b" [] c = "C" -> "c" [] c = "D" -> "d" [] c = "E2" -> "e2" [] c = "S" -> "s" [] OTHER -> c
+RECURSIVE StrUpper(_)
+StrUpper(sv) == IF sv = <<>> THEN <<>> ELSE UpperOf(sv[1]) \o StrUpper(Tail(sv))
+StrLower(sv) == [i \in 1..Len(sv) |-> LowerOf(sv[i])]
+RECURSIVE StrStripL(_)
+StrStripL(sv) == IF sv # <<>> /\ sv[1] = "sp" THEN StrStripL(Tail(sv)) ELSE sv
+RECURSIVE StrStripR(_)
+StrStripR(sv) == IF sv # <<>> /\ sv[Len(sv)] = "sp" THEN StrStripR(SubSeq(sv, 1, Len(sv) - 1)) ELSE sv
+StrStrip(sv) == StrStripR(StrStripL(sv))
+\* first position (1-based) where n occurs in h, 0 if none
+FindSub(n, h) == LET S == {i \in 1..(Len(h) - Len(n) + 1) : SubSeq(h, i, i + Len(n) - 1) = n} IN
+                 IF S = {} THEN 0 ELSE CHOOSE i \in S : \A j \in S : i <= j
+RECURSIVE StrSplit(_, _)
+StrSplit(sv, sep) == LET i == FindSub(sep, sv) IN
+                     IF i = 0 THEN <<sv>> ELSE <<SubSeq(sv, 1, i - 1)>> \o StrSplit(SubSeq(sv, i + Len(sep), Len(sv)), sep)
+RECURSIVE StrJoin(_, _)
+StrJoin(sep, xs) == IF xs = <<>> THEN <<>> ELSE IF Len(xs) = 1 THEN xs[1] ELSE xs[1] \o sep \o StrJoin(sep, Tail(xs))
+RECURSIVE StrReplace(_, _, _)
+StrReplace(sv, a, b) == LET i == FindSub(a, sv) IN
+                        IF i = 0 THEN sv ELSE SubSeq(sv, 1, i - 1) \o b \o StrReplace(SubSeq(sv, i + Len(a), Len(sv)), a, b)
+\* decimal text of an int as scalars ("-" and the digits are scalars of the alphabet)
+Digit(d) == <<"0", "1", "2", "3", "4", "5", "6", "7", "8", "9">>[d + 1]
+RECURSIVE NatText(_)
+NatText(n) == IF n < 10 THEN <<Digit(n)>> ELSE NatText(n \div 10) \o <<Digit(n % 10)>>
+IntText(n) == IF n < 0 THEN <<"da">> \o NatText(-n) ELSE NatText(n)
+\* how a value is spliced into an f-string / printed: ints in decimal, bools as true / false, strs as they are
+FmtV(v) == CASE v.t = "int" -> IntText(v.iv) [] v.t = "bool" -> (IF v.bv THEN <<"t", "r", "u", "e">> ELSE <<"f", "a", "l", "s", "e">>)
+             [] v.t = "str" -> v.sv
+\* ---- tuples and dicts (insertion-ordered here; programs never observe the iteration order of a dict)
+TupleV(xs) == [t |-> "tuple", xs |-> xs]
+DictV(ks, vs) == [t |-> "dict", ks |-> ks, vs |-> vs]
+KeyIdx(d, k) == LET S == {i \in 1..Len(d.ks) : d.ks[i] = k} IN IF S = {} THEN 0 ELSE CHOOSE i \in S : TRUE
+DictPut(d, k, v) == LET i == KeyIdx(d, k) IN IF i = 0 THEN DictV(Append(d.ks, k), Append(d.vs, v)) ELSE DictV(d.ks, [d.vs EXCEPT ![i] = v])
+RECURSIVE FlatText(_)
+FlatText(sv) == IF sv = <<>> THEN "" ELSE sv[1] \o FlatText(Tail(sv))      \* only for ASCII scalars whose id is the character
+ErrKey(k) == "KeyError: '" \o (IF k.t = "int" THEN ToString(k.iv) ELSE FlatText(k.sv)) \o "' not found in dict"
+\* insertion sort (sorted())
+RECURSIVE SortInts(_)
+InsertInt(x, ys) == LET n == Cardinality({i \in 1..Len(ys) : ys[i].iv <= x.iv}) IN SubSeq(ys, 1, n) \o <<x>> \o SubSeq(ys, n + 1, Len(ys))
+SortInts(xs) == IF xs = <<>> THEN <<>> ELSE InsertInt(xs[1], SortInts(Tail(xs)))
+RECURSIVE SumInts(_)
+SumInts(xs) == IF xs = <<>> THEN 0 ELSE xs[1].iv + SumInts(Tail(xs))
 \* machine state: [env, out, sig, err, ret, fuel]; sig in {"n", "brk", "cont", "ret", "err"}
 VLookupIdx(env, x) == LET S == {j \in 1..Len(env) : x \in DOMAIN env[j]} IN CHOOSE i \in S : \A j \in S : j <= i
 RECURSIVE EvalE(_, _, _)
@@ -288,6 +342,7 @@ RECURSIVE ExecBlock(_, _, _)
 RECURSIVE ExecWhile(_, _, _)
 RECURSIVE ExecFor(_, _, _, _)
 RECURSIVE EvalData(_, _, _)
+RECURSIVE EvalColl(_, _, _)
 RECURSIVE MatchPat(_, _)
 RECURSIVE MatchPats(_, _, _)
 \* result of an expression: [ok, v, err, st] (st carries out / fuel changes made by calls)
@@ -317,8 +372,11 @@ EvalE(e, st, P) ==
               IF ~b.ok THEN b
               ELSE IF e.op \in {"and", "or"} THEN b
               ELSE IF e.op \in CmpOps THEN R(TRUE, BoolV(Compare(e.op, a.v, b.v)), "", b.st)
-              ELSE IF e.op = "in" THEN R(TRUE, BoolV(IsSubSeq(a.v.sv, b.v.sv)), "", b.st)
-              ELSE IF e.op = "not in" THEN R(TRUE, BoolV(~IsSubSeq(a.v.sv, b.v.sv)), "", b.st)
+              ELSE IF e.op \in {"in", "not in"} THEN
+                     LET isin == CASE b.v.t = "str" -> IsSubSeq(a.v.sv, b.v.sv)
+                                   [] b.v.t = "list" -> \E i \in 1..Len(b.v.xs) : b.v.xs[i] = a.v
+                                   [] b.v.t = "dict" -> KeyIdx(b.v, a.v) # 0 IN
+                     R(TRUE, BoolV(IF e.op = "in" THEN isin ELSE ~isin), "", b.st)
               ELSE IF e.op = "+" /\ a.v.t = "str" THEN R(TRUE, StrV(a.v.sv \o b.v.sv), "", b.st)
               ELSE IF e.op = "**" THEN
                      (IF a.v.t = "int" /\ b.v.t = "int" /\ e.r.k = "lit" THEN R(TRUE, IntV(IPow(a.v.iv, b.v.iv)), "", b.st)
@@ -329,6 +387,9 @@ EvalE(e, st, P) ==
          IF ~o.ok THEN o
          ELSE LET i == EvalE(e.idx, o.st, P) IN
               IF ~i.ok THEN i
+              ELSE IF o.v.t = "dict" THEN
+                     LET j == KeyIdx(o.v, i.v) IN
+                     IF j = 0 THEN R(FALSE, NoneVal, ErrKey(i.v), i.st) ELSE R(TRUE, o.v.vs[j], "", i.st)
               ELSE IF o.v.t = "str" THEN
                      LET j == NormIndex(Len(o.v.sv), i.v.iv) IN
                      IF j = -1 THEN R(FALSE, NoneVal, ErrStrIndex, i.st) ELSE R(TRUE, StrV(<<o.v.sv[j + 1]>>), "", i.st)
@@ -355,7 +416,12 @@ EvalE(e, st, P) ==
          LET as == EvalArgs(e.args, st, P, <<>>) IN
          IF ~as.ok THEN as
          ELSE LET av == as.v.xs IN
-              IF e.f = "len" THEN R(TRUE, IntV(IF av[1].t = "str" THEN Len(av[1].sv) ELSE Len(av[1].xs)), "", as.st)
+              IF e.f = "len" THEN R(TRUE, IntV(CASE av[1].t = "str" -> Len(av[1].sv) [] av[1].t = "dict" -> Len(av[1].ks) [] OTHER -> Len(av[1].xs)), "", as.st)
+              ELSE IF e.f = "sum" THEN R(TRUE, IntV(SumInts(av[1].xs)), "", as.st)
+              ELSE IF e.f = "sorted" THEN R(TRUE, ListV(SortInts(av[1].xs)), "", as.st)
+              ELSE IF e.f \in {"min", "max"} THEN
+                     (IF av[1].xs = <<>> THEN R(FALSE, NoneVal, "UNSPECIFIED: min / max of an empty list", as.st)
+                      ELSE LET srt == SortInts(av[1].xs) IN R(TRUE, IF e.f = "min" THEN srt[1] ELSE srt[Len(srt)], "", as.st))
               ELSE IF e.f = "abs" THEN R(TRUE, IF av[1].t = "int" THEN IntV(Abs(av[1].iv)) ELSE NormF(Abs(av[1].fn), av[1].fd), "", as.st)
               ELSE LET f == FnOf(P, e.f).d IN
                    IF as.st.fuel = 0 THEN R(FALSE, NoneVal, Fuel, as.st)
@@ -420,6 +486,100 @@ EvalData(e, st, P) ==
                                    ELSE IF g.v.bv THEN LET r == EvalE(e.arms[k].e, g.st, P) IN [r EXCEPT !.st = PopTo(r.st, n)]
                                    ELSE Arms(k + 1, PopTo(g.st, n)) IN
               Arms(1, s0.st)
+    [] OTHER -> EvalColl(e, st, P)
+
+\* ---- tuples, dicts, methods of str / list / dict, comprehensions, closures, f-strings
+SetVar(st, x, v) == [st EXCEPT !.env[VLookupIdx(st.env, x)] = (x :> v) @@ @]
+EvalColl(e, st, P) ==
+  CASE e.k = "tuple" -> LET as == EvalArgs(e.items, st, P, <<>>) IN IF ~as.ok THEN as ELSE R(TRUE, TupleV(as.v.xs), "", as.st)
+    [] e.k = "tfield" -> LET o == EvalE(e.obj, st, P) IN IF ~o.ok THEN o ELSE R(TRUE, o.v.xs[e.idx + 1], "", o.st)
+    [] e.k = "dict" ->        \* k1, v1, k2, v2, ... are evaluated in that order; a repeated key keeps the last value
+         LET RECURSIVE Pairs(_, _, _)
+             Pairs(i, cur, d) ==
+               IF i > Len(e.keys) THEN R(TRUE, d, "", cur)
+               ELSE LET kk == EvalE(e.keys[i], cur, P) IN
+                    IF ~kk.ok THEN kk
+                    ELSE LET vv == EvalE(e.vals[i], kk.st, P) IN
+                         IF ~vv.ok THEN vv ELSE Pairs(i + 1, vv.st, DictPut(d, kk.v, vv.v)) IN
+         Pairs(1, st, DictV(<<>>, <<>>))
+    [] e.k = "mcall" ->       \* receiver, then arguments left to right, then the method
+         LET o == EvalE(e.recv, st, P) IN
+         IF ~o.ok THEN o
+         ELSE LET as == EvalArgs(e.args, o.st, P, <<>>) IN
+              IF ~as.ok THEN as
+              ELSE LET av == as.v.xs  m == e.name  rv == o.v IN
+                   CASE rv.t = "str" /\ m = "upper" -> R(TRUE, StrV(StrUpper(rv.sv)), "", as.st)
+                     [] rv.t = "str" /\ m = "lower" -> R(TRUE, StrV(StrLower(rv.sv)), "", as.st)
+                     [] rv.t = "str" /\ m = "strip" -> R(TRUE, StrV(StrStrip(rv.sv)), "", as.st)
+                     [] rv.t = "str" /\ m = "split" ->
+                          (IF av[1].sv = <<>> THEN R(FALSE, NoneVal, "UNSPECIFIED: split with an empty separator", as.st)
+                           ELSE LET ps == StrSplit(rv.sv, av[1].sv) IN R(TRUE, ListV([i \in 1..Len(ps) |-> StrV(ps[i])]), "", as.st))
+                     [] rv.t = "str" /\ m = "join" -> R(TRUE, StrV(StrJoin(rv.sv, [i \in 1..Len(av[1].xs) |-> av[1].xs[i].sv])), "", as.st)
+                     [] rv.t = "str" /\ m = "replace" ->
+                          (IF av[1].sv = <<>> THEN R(FALSE, NoneVal, "UNSPECIFIED: replace of the empty string", as.st)
+                           ELSE R(TRUE, StrV(StrReplace(rv.sv, av[1].sv, av[2].sv)), "", as.st))
+                     [] rv.t = "str" /\ m = "contains" -> R(TRUE, BoolV(IsSubSeq(av[1].sv, rv.sv)), "", as.st)
+                     [] rv.t = "str" /\ m = "startswith" -> R(TRUE, BoolV(Len(av[1].sv) <= Len(rv.sv) /\ SubSeq(rv.sv, 1, Len(av[1].sv)) = av[1].sv), "", as.st)
+                     [] rv.t = "str" /\ m = "endswith" ->
+                          R(TRUE, BoolV(Len(av[1].sv) <= Len(rv.sv) /\ SubSeq(rv.sv, Len(rv.sv) - Len(av[1].sv) + 1, Len(rv.sv)) = av[1].sv), "", as.st)
+                     [] rv.t = "list" /\ m = "contains" -> R(TRUE, BoolV(\E i \in 1..Len(rv.xs) : rv.xs[i] = av[1]), "", as.st)
+                     \* mutating methods: the receiver is a variable; the new collection is stored back
+                     [] rv.t = "list" /\ m = "append" -> R(TRUE, NoneVal, "", SetVar(as.st, e.recv.name, ListV(Append(rv.xs, av[1]))))
+                     [] rv.t = "list" /\ m = "pop" ->
+                          (IF rv.xs = <<>> THEN R(FALSE, NoneVal, "UNSPECIFIED: pop from an empty list", as.st)
+                           ELSE R(TRUE, rv.xs[Len(rv.xs)], "", SetVar(as.st, e.recv.name, ListV(SubSeq(rv.xs, 1, Len(rv.xs) - 1)))))
+                     [] rv.t = "list" /\ m = "swap" ->
+                          LET i == av[1].iv + 1  j == av[2].iv + 1 IN
+                          (IF i \notin 1..Len(rv.xs) \/ j \notin 1..Len(rv.xs) THEN R(FALSE, NoneVal, "UNSPECIFIED: swap out of range", as.st)
+                           ELSE R(TRUE, NoneVal, "", SetVar(as.st, e.recv.name, ListV([rv.xs EXCEPT ![i] = rv.xs[j], ![j] = rv.xs[i]]))))
+                     [] rv.t = "dict" /\ m = "insert" -> R(TRUE, NoneVal, "", SetVar(as.st, e.recv.name, DictPut(rv, av[1], av[2])))
+                     [] OTHER -> R(FALSE, NoneVal, "UNSPECIFIED: unknown expression kind", as.st)
+    [] e.k = "closure" -> R(TRUE, [t |-> "clos", params |-> e.params, body |-> e.body], "", st)
+    [] e.k = "callv" ->       \* call of a closure held in a variable: arguments left to right, then the body with the parameters bound;
+                              \* captured names are immutable bindings of the enclosing function (same value at creation and at the call)
+         LET c == st.env[VLookupIdx(st.env, e.f)][e.f]
+             as == EvalArgs(e.args, st, P, <<>>) IN
+         IF ~as.ok THEN as
+         ELSE LET n == Len(as.st.env)
+                  frame == [p \in {c.params[i] : i \in 1..Len(c.params)} |-> as.v.xs[CHOOSE i \in 1..Len(c.params) : c.params[i] = p]]
+                  r == EvalE(c.body, [as.st EXCEPT !.env = Append(@, frame)], P) IN
+              [r EXCEPT !.st = PopTo(r.st, n)]
+    [] e.k \in {"listcomp", "dictcomp"} ->   \* per item, in order: bind, condition (if any), then the element (key, then value)
+         LET it == EvalE(e.iter, st, P) IN
+         IF ~it.ok THEN it
+         ELSE LET n == Len(it.st.env)
+                  items == IF it.v.t = "str" THEN [i \in 1..Len(it.v.sv) |-> StrV(<<it.v.sv[i]>>)] ELSE it.v.xs
+                  RECURSIVE Step(_, _, _)
+                  Step(i, cur, acc) ==
+                    IF i > Len(items) THEN R(TRUE, acc, "", cur)
+                    ELSE LET inner == [cur EXCEPT !.env = Append(@, (e.var :> items[i]))]
+                             c == IF e.cond = <<>> THEN R(TRUE, BoolV(TRUE), "", inner) ELSE EvalE(e.cond[1], inner, P) IN
+                         IF ~c.ok THEN [c EXCEPT !.st = PopTo(c.st, n)]
+                         ELSE IF ~c.v.bv THEN Step(i + 1, PopTo(c.st, n), acc)
+                         ELSE IF e.k = "listcomp" THEN
+                                LET x == EvalE(e.elem, c.st, P) IN
+                                IF ~x.ok THEN [x EXCEPT !.st = PopTo(x.st, n)] ELSE Step(i + 1, PopTo(x.st, n), ListV(Append(acc.xs, x.v)))
+                         ELSE LET kk == EvalE(e.key, c.st, P) IN
+                              IF ~kk.ok THEN [kk EXCEPT !.st = PopTo(kk.st, n)]
+                              ELSE LET vv == EvalE(e.val, kk.st, P) IN
+                                   IF ~vv.ok THEN [vv EXCEPT !.st = PopTo(vv.st, n)] ELSE Step(i + 1, PopTo(vv.st, n), DictPut(acc, kk.v, vv.v)) IN
+              Step(1, it.st, IF e.k = "listcomp" THEN ListV(<<>>) ELSE DictV(<<>>, <<>>))
+    [] e.k = "fstr" ->        \* holes are evaluated left to right and spliced in as FmtV
+         LET RECURSIVE Parts(_, _, _)
+             Parts(i, cur, acc) ==
+               IF i > Len(e.parts) THEN R(TRUE, StrV(acc), "", cur)
+               ELSE IF e.parts[i].pk = "s" THEN Parts(i + 1, cur, acc \o e.parts[i].sv)
+               ELSE LET x == EvalE(e.parts[i].e, cur, P) IN IF ~x.ok THEN x ELSE Parts(i + 1, x.st, acc \o FmtV(x.v)) IN
+         Parts(1, st, <<>>)
+    [] e.k = "range" ->       \* range(...) as a value (comprehension source)
+         LET as == EvalArgs(e.args, st, P, <<>>) IN
+         IF ~as.ok THEN as
+         ELSE LET av == as.v.xs
+                  a == IF Len(av) = 1 THEN 0 ELSE av[1].iv
+                  b == IF Len(av) = 1 THEN av[1].iv ELSE av[2].iv
+                  c == IF Len(av) = 3 THEN av[3].iv ELSE 1
+                  r == Range(a, b, c) IN
+              IF r.err # "" THEN R(FALSE, NoneVal, r.err, as.st) ELSE R(TRUE, ListV([i \in 1..Len(r.val) |-> IntV(r.val[i])]), "", as.st)
     [] OTHER -> R(FALSE, NoneVal, "UNSPECIFIED: unknown expression kind", st)
 
 ErrSt(st, r) == IF r.err = "$EARLY-RETURN" THEN [r.st EXCEPT !.sig = "ret", !.ret = r.v]
@@ -459,6 +619,16 @@ ExecStmt(s, st, P) ==
                          ELSE IF ck.v.bv THEN PopTo(ExecBlock(s.elifs[k].body, [ck.st EXCEPT !.env = Append(@, <<>>)], P), n)
                          ELSE Elifs(k + 1, ck.st) IN
               Elifs(1, c.st)
+    [] s.k = "setidx" ->        \* xs[i] = e / d[k] = e on a variable: the value, then the index; the element is replaced / the key inserted
+         LET v == EvalE(s.e, st, P) IN
+         IF ~v.ok THEN ErrSt(st, v)
+         ELSE LET i == EvalE(s.idx, v.st, P) IN
+              IF ~i.ok THEN ErrSt(st, i)
+              ELSE LET cur == i.st.env[VLookupIdx(i.st.env, s.name)][s.name] IN
+                   IF cur.t = "dict" THEN SetVar(i.st, s.name, DictPut(cur, i.v, v.v))
+                   ELSE LET j == NormIndex(Len(cur.xs), i.v.iv) IN
+                        IF j = -1 THEN [i.st EXCEPT !.sig = "err", !.err = "UNSPECIFIED: list assignment index out of range"]
+                        ELSE SetVar(i.st, s.name, ListV([cur.xs EXCEPT ![j + 1] = v.v]))
     [] s.k = "matchs" ->        \* statement-level match: the FIRST arm whose pattern matches and whose guard holds runs its block
          LET n == Len(st.env)
              s0 == EvalE(s.subj, st, P) IN
@@ -530,7 +700,10 @@ Run(P0) ==
            m == FnOf(P, "main").d
            r == ExecBlock(m.body, [env |-> <<ce.env, <<>>>>, out |-> <<>>, sig |-> "n", err |-> "", ret |-> NoneVal, fuel |-> 24], P) IN
        [out |-> r.out, status |-> IF r.sig = "err" THEN "error" ELSE "done", err |-> r.err]
-Unspecified == {Inexact, Fuel, "UNSPECIFIED: unknown expression kind", "UNSPECIFIED: unknown statement kind"}
+Unspecified == {Inexact, Fuel, "UNSPECIFIED: unknown expression kind", "UNSPECIFIED: unknown statement kind",
+                "UNSPECIFIED: no arm matched", "UNSPECIFIED: min / max of an empty list", "UNSPECIFIED: split with an empty separator",
+                "UNSPECIFIED: replace of the empty string", "UNSPECIFIED: pop from an empty list", "UNSPECIFIED: swap out of range",
+                "UNSPECIFIED: list assignment index out of range"}
 Specified(res) == ~(res.status \in {"error", "consterr"} /\ res.err \in Unspecified)
 \* ================================================================ feature tags (known-finding signatures, DESIGN §7)
 \* Computed by the specification from the case itself: operator x operand types, grouping
